@@ -21,31 +21,35 @@ func NewPreviewReader(l zerolog.Logger) previewReader {
 }
 
 func (pr *previewReader) RenderPreview(r io.Reader, h meta.PreviewHeader) error {
-	img := make([]byte, h.Size)
-	offset := uint32(0)
-	maxSize := uint32(2048)
-	for {
-		maxOffset := offset + maxSize
-		if h.Size < maxOffset {
-			maxOffset = h.Size
+	// The size comes from the file. Grow the image as data arrives instead of
+	// allocating whatever the header declares (up to 4 GiB) before reading.
+	const maxSize = 2048
+	var img []byte
+	if h.Size <= 64*maxSize {
+		img = make([]byte, 0, h.Size)
+	}
+	buf := make([]byte, maxSize)
+	for uint32(len(img)) < h.Size {
+		n := h.Size - uint32(len(img))
+		if n > maxSize {
+			n = maxSize
 		}
 
-		readLength, err := r.Read(img[offset:maxOffset])
+		readLength, err := r.Read(buf[:n])
+		img = append(img, buf[:readLength]...)
 		if err != nil {
 			if err == io.EOF {
 				break
 			}
 			pr.logError(err).
-				Uint32("offset", offset).
-				Uint32("maxOffset", maxOffset).
+				Uint32("offset", uint32(len(img))).
+				Uint32("maxOffset", uint32(len(img))+n).
 				Msgf("error read preview image")
 			return err
 		}
 		if readLength == 0 {
 			break
 		}
-
-		offset += uint32(readLength)
 	}
 
 	pr.PreviewImage = img
